@@ -171,6 +171,8 @@ bit `P'` whose whole-byte position is at most `len + 4` further (`+ 5` for
 `len > 2^20`, where the uncompressed header has 6 length nibbles) -/
 def Guard (P len P' : Nat) : Prop := P' / 8 ≤ P / 8 + len + 4 + (if len > 2 ^ 20 then 1 else 0)
 
+instance (P len P' : Nat) : Decidable (Guard P len P') := by unfold Guard; infer_instance
+
 /-- a run of meta-blocks with the given input lengths from bit `P` to bit `P'` -/
 inductive Run : Nat → List Nat → Nat → Prop
   | nil (P : Nat) : Run P [] P
@@ -202,5 +204,121 @@ theorem run_bound {P P' : Nat} {lens : List Nat} (h : Run P lens P') :
       have := ih 0 hb2
       simp only [reduceCtorEq, if_false, List.sum_cons, Nat.add_zero] at this ⊢
       split at hg <;> omega
+
+/-! ## the head of a stream and the total -/
+
+theorem streamStart_length (p : Params) (input : List Nat) (st : Start)
+    (hq : 2 ≤ p.quality) (hh : p.sizeHint < 2 ^ 64) (hs : streamStart true p input = ok st) :
+    st.prelude = (if p.catable then min 2 input.length else 0) ∧
+    (st.whole = true ↔ input.length = st.prelude) ∧
+    st.bits.length =
+      (if input.length = st.prelude then
+        (headLen (ensureInitialized true p).lastBytesBits p.magicNumber
+          (encodeBase128 (effectiveParams p input.length).sizeHint).length st.prelude + 2 + 7) / 8 * 8
+       else headLen (ensureInitialized true p).lastBytesBits p.magicNumber
+          (encodeBase128 (effectiveParams p input.length).sizeHint).length st.prelude) := by
+  have hqs : (ensureInitialized true p).params.quality = min 11 (max 0 p.quality) := by
+    rw [init_params_quality, sanitize_quality]
+  obtain ⟨_, f2, _, _, f5, _⟩ := sanitize_flags true p
+  have e2 : (effectiveParams p input.length).catable = p.catable := f2
+  have e5 : (effectiveParams p input.length).magicNumber = p.magicNumber := f5
+  have hhint := effective_sizeHint_lt p input.length hh
+  unfold streamStart at hs
+  simp only [] at hs
+  split at hs
+  · rename_i hc
+    rw [hqs] at hc
+    omega
+  · rw [obind_eq_ok] at hs; obtain ⟨r, h1, hs⟩ := hs
+    obtain ⟨l1, l2⟩ := encodeDataHead_length (effectiveParams p input.length) input _ r hhint h1
+    obtain ⟨c1, c2, c3⟩ := closeIfDone_length hs
+    rw [e2] at l1
+    rw [e5] at l2
+    have hr2 : r.2 ≤ input.length := by rw [l1]; split <;> omega
+    have hlen : (pendingWriter (ensureInitialized true p)).length = (ensureInitialized true p).lastBytesBits := by
+      simp [pendingWriter]
+    rw [hlen] at l2
+    refine ⟨c1.trans l1, ?_, ?_⟩
+    · rw [c2, c1]; omega
+    · rw [c3, c1, l2]
+      have : (input.length - r.2 = 0) ↔ (input.length = r.2) := by omega
+      simp only [this]
+
+
+theorem effective_hint_lt35 (p : Params) (n : Nat) (_hn : n < 2 ^ 64) (hh : p.sizeHint < 2 ^ 35) :
+    (effectiveParams p n).sizeHint < 2 ^ 35 := by
+  have hs : (ensureInitialized true p).params.sizeHint = p.sizeHint := by
+    have := (sanitize_flags true p).2.2.2.2.2
+    simp only [ensureInitialized]; rw [this]
+  simp only [effectiveParams, hs, updateSizeHint, lit, litsUsh, BV.Gen.lits_update_size_hint,
+    List.getD_cons_zero, List.getD_cons_succ]
+  split
+  · split
+    · decide
+    · have : (n + 0) % 2 ^ 64 % 2 ^ 32 < 2 ^ 32 := Nat.mod_lt _ (by decide)
+      omega
+  · exact hh
+
+/-- the arithmetic core of C08's stream claim -/
+theorem stream_total_bound (p : Params) (input : List Nat) (st : Start)
+    (hq : 2 ≤ p.quality) (hh : p.sizeHint < 2 ^ 35) (hn : input.length < 2 ^ 54)
+    (hs : streamStart true p input = ok st) :
+    (st.whole = true → st.bits.length / 8 ≤ maxCompressedSize input.length) ∧
+    (st.whole = false → ∀ lens Pm, Run st.bits.length lens Pm → BlocksOK st.prelude lens →
+        lens.sum + st.prelude = input.length → (Pm + 2 + 7) / 8 ≤ maxCompressedSize input.length) := by
+  obtain ⟨s1, s2, s3⟩ := streamStart_length p input st hq (by omega) hs
+  obtain ⟨w1, w2⟩ := lastBytesBits_le p
+  have hk : (encodeBase128 (effectiveParams p input.length).sizeHint).length ≤ 5 :=
+    encodeBase128_length_le _ 5 (by decide) (by decide)
+      (by have := effective_hint_lt35 p input.length (by omega) hh; omega)
+      (by have := effective_hint_lt35 p input.length (by omega) hh; omega)
+  have hk1 := (encodeBase128_spec (effectiveParams p input.length).sizeHint
+      (by have := effective_hint_lt35 p input.length (by omega) hh; omega) []).2.1
+  have hmax := max_closed input.length hn
+  generalize (encodeBase128 (effectiveParams p input.length).sizeHint).length = k at *
+  generalize (ensureInitialized true p).lastBytesBits = W at *
+  have hpre : st.prelude ≤ 2 ∧ st.prelude ≤ input.length := by rw [s1]; split <;> omega
+  generalize st.prelude = pre at *
+  generalize input.length = n at *
+  simp only [headLen] at s3
+  have hpre3 : pre = 0 ∨ pre = 1 ∨ pre = 2 := by omega
+  have hmx : (n = 0 → maxCompressedSize n = 17) ∧ (n ≠ 0 → n < 2 ^ 14 → maxCompressedSize n = n + 22) ∧
+      (¬ n < 2 ^ 14 → maxCompressedSize n = n + 4 * (n / 2 ^ 14) + 23) := by
+    rw [hmax]
+    refine ⟨fun h => by simp [h], fun h1 h2 => by simp [h1, h2], fun h => ?_⟩
+    have : n ≠ 0 := by omega
+    simp [this, h]
+  clear hmax
+  obtain ⟨m0, m1, m2⟩ := hmx
+  constructor
+  · intro hw
+    have hnp : n = pre := s2.mp hw
+    simp only [hnp, if_true] at s3
+    rw [s3]
+    cases hm : p.magicNumber <;> simp only [hm, if_true, if_false, Bool.false_eq_true] at s3 ⊢ <;>
+      rcases hpre3 with h | h | h <;> subst h <;>
+      simp only [ne_eq, Nat.reduceEqDiff, eq_self, not_true_eq_false, not_false_eq_true, if_true, if_false] at s3 ⊢ <;>
+      (first
+        | (have := m0 (by omega); omega)
+        | (have := m1 (by omega) (by omega); omega))
+  · intro hw lens Pm hrun hblocks hsum
+    have hnp : ¬ n = pre := by
+      intro h; have := s2.mpr h; rw [hw] at this; exact Bool.false_ne_true this
+    simp only [hnp, if_false] at s3
+    have hb := run_bound hrun pre hblocks
+    have hne : lens ≠ [] := by
+      intro h; subst h; simp at hsum; omega
+    simp only [hne, if_false, Nat.add_zero] at hb
+    rw [s3] at hb
+    have hs2 : lens.sum = n - pre := by omega
+    rw [hs2] at hb
+    have hnp' : n - pre + pre = n := by omega
+    rw [hnp'] at hb
+    cases hm : p.magicNumber <;> simp only [hm, if_true, if_false, Bool.false_eq_true] at hb <;>
+      rcases hpre3 with h | h | h <;> subst h <;>
+      simp only [ne_eq, Nat.reduceEqDiff, eq_self, not_true_eq_false, not_false_eq_true, if_true, if_false] at hb <;>
+      (by_cases h14 : n < 2 ^ 14
+       · have := m1 (by omega) h14; omega
+       · have := m2 h14; omega)
 
 end BV.Header
